@@ -753,6 +753,9 @@ def stable_toff(forest):
 
 
 TYPE_REUSE = {
+    # several columns of ONE primitive type with different repetition (the generator emits one field type per primitive type)
+    "SameLeafTypes": "package main\n\ntype Rec struct {\n\tOffset  *int64\n\tSamples []int64\n\tName    *string\n\tTags    []string\n"
+                     "\tFlag    *bool\n\tFlags   []bool\n\tN       int64\n\tRatio   *float64\n\tRatios  []float64\n}\n",
     # column names given by tags: with spaces, dots are not allowed by the format's path convention, other punctuation is
     "TagNames": "package main\n\ntype Contact struct {\n\tAddress string  `parquet:\"home address\"`\n\tPhone   *string `parquet:\"cell phone\" json:\"phone,omitempty\"`\n}\n\n"
                 "type Rec struct {\n\tID       int64     `json:\"id\" parquet:\"id\"`\n\tContacts []Contact `parquet:\"contacts\"`\n\tNote     *string   `parquet:\"a-b c:d\"`\n}\n",
@@ -1316,6 +1319,9 @@ def features_for(col):
     return fs
 
 
+TRAILING_FEATURES = ("v2", "index-before", "type-v2-with-dph", "type-index-with-dph", "type-dict-with-dph", "enc-future-10", "enc-bss", "enc-delta", "enc-delta-ba")
+
+
 def c18():
     ck = Check("C18", "model_checking")
     q = ck.quick()
@@ -1331,8 +1337,11 @@ def c18():
         for ci, col in enumerate(p.cols):
             for feat in features_for(col):
                 for rg in (0, 1):
-                    for page in (0, 1):
-                        if q and (rg + page + ci + len(feat)) % 2 == 1 and feat not in ("dict",):
+                    # page -1: an extra value-less page behind the chunk's last page carries the feature
+                    for page in (0, 1) + ((-1,) if feat in TRAILING_FEATURES else ()):
+                        if q and page >= 0 and (rg + page + ci + len(feat)) % 2 == 1 and feat not in ("dict",):
+                            continue
+                        if q and page < 0 and (rg + ci) % 2 == 1:
                             continue
                         rows = [next(cyc) for _ in range(4)]
                         codec = CODECS[(ci + rg + page) % 3]
@@ -1349,7 +1358,7 @@ def c18():
     ck.cov["rule"] = ("otherwise valid two-row-group, two-pages-per-chunk files of the schemas of F in which exactly one chunk (every column x both row groups x "
                       "both page positions) uses one unsupported feature applicable to that column: dictionary page + dictionary-encoded data pages, an index "
                       "page, DATA_PAGE_V2, pages typed v2/index/dictionary that still carry a data_page_header struct, value encodings RLE (bool) / DELTA_BINARY_PACKED (ints) / DELTA_LENGTH_BYTE_ARRAY (strings), BIT_PACKED levels, "
-                      "codecs LZO/BROTLI/LZ4/ZSTD/LZ4_RAW (genuinely encoded content except LZO/BROTLI); distinct by (schema, column, feature, row group, page)")
+                      "codecs LZO/BROTLI/LZ4/ZSTD/LZ4_RAW (genuinely encoded content except LZO/BROTLI); page-level features also on an extra value-less page behind the chunk's last page; distinct by (schema, column, feature, row group, page)")
     ck.cov["exhaustive"] = not q
     run_programs(ok, "c18", timeout=1800)
     ck.sample({"schema": ok[0].key, "unsup": ok[0].cases[3]["foreign"]["unsup"]})
@@ -1405,9 +1414,10 @@ def c16():
                     col["stats"] = True
                     if fi % 2 == 0:
                         col["pages"] = [[1] * k for k in fc["rgsplit"]]      # one-record pages: several pages per chunk
-                    # no zero-value pages here: PageHeadersAtOffset(offset, n) walks until n values are covered, so a trailing
-                    # empty page cannot be reached by count - a limit of the API's contract, not something to judge
-                    col["pages"] = [[x for x in pg if x > 0] for pg in col["pages"]]
+                    # value-less pages at the start, in the middle and at the end of chunks (a trailing one is not part of the
+                    # answer: PageHeadersAtOffset(offset, n) lists pages until n values are covered)
+                    if fi % 3 == 0:
+                        col["pages"] = [[0] + pg + [0] if gi % 2 == 0 else pg[:1] + [0] + pg[1:] for gi, pg in enumerate(col["pages"])]
                 fc["reversechunks"] = fi % 3 == 1      # chunks stored in reverse schema order (offsets in the footer say where)
                 p.cases.append({"page": 1000, "codec": "snappy", "poff": ck.rng.randrange(16), "ops": [], "foreign": fc, "intro": True})
                 ck.add("evaluations")
@@ -1853,6 +1863,53 @@ OTHER_SRC = "type Other struct {\n\tZ int64\n\tW *string\n\tq []int32\n}\n"
 
 
 MIXIN_PAIRS = {
+    # tags: a promoted field whose Go name equals the COLUMN name of a sibling of the embedding struct (and vice versa), at
+    # the top level and inside a required nested struct
+    "TagShadow": ("""package main
+
+type Owner struct {
+	Email string  `parquet:"email"`
+	Phone *string `parquet:"phone"`
+	Alias string  `parquet:"Email"`
+	Rank  int32   `parquet:"rank"`
+}
+
+type Rec struct {
+	ID      int64   `parquet:"id"`
+	Name    string  `parquet:"name"`
+	Version *int32  `parquet:"version"`
+	Title   string  `parquet:"Name"`
+	Score   float64 `parquet:"score"`
+	Owner   Owner   `parquet:"owner"`
+	Tags    []string `parquet:"tags"`
+}
+""", """package main
+
+type Contact struct {
+	Email string  `parquet:"email"`
+	Phone *string `parquet:"phone"`
+}
+
+type Owner struct {
+	Contact
+	Alias string `parquet:"Email"`
+	Rank  int32  `parquet:"rank"`
+}
+
+type Audit struct {
+	Name    string `parquet:"name"`
+	Version *int32 `parquet:"version"`
+}
+
+type Rec struct {
+	ID int64 `parquet:"id"`
+	Audit
+	Title string   `parquet:"Name"`
+	Score float64  `parquet:"score"`
+	Owner Owner    `parquet:"owner"`
+	Tags  []string `parquet:"tags"`
+}
+"""),
     # a long chain of embedded structs below several (required) nested groups: nine resolution hops, four schema levels
     "DeepChain": ("""package main
 
